@@ -375,7 +375,7 @@ def read_tsvs(root):
 
 def reference(case, base):
   """Never-interrupted run; also the per-round states (by replaying prefixes)."""
-  root = os.path.join(base, 'ref')
+  root = os.path.join(base, 'ref-' + case.get('dirname', 'run'))
   injector = Injector()
   final_state = one_run(case, root, injector)
   # per-round reference states from checkpoint-free runs of r rounds
@@ -428,7 +428,7 @@ def run_case(case):
   try:
     cfg = case['config']
     ref_state, ref_tsvs, states, ref_inj = reference(case, base)
-    root = os.path.join(base, 'run')
+    root = os.path.join(base, case.get('dirname', 'run'))
     final_state = None
     for ci, crash in enumerate(case['crashes']):
       injector = Injector(crash['at'], crash['prefix'])
@@ -479,7 +479,7 @@ def count_effects(case):
   try:
     injector = Injector(strict=False)
     try:
-      one_run(case, os.path.join(base, 'cnt'), injector)
+      one_run(case, os.path.join(base, 'cnt-' + case.get('dirname', 'run')), injector)
     except Exception:  # pylint: disable=broad-except
       # A failure of the uninterrupted run is reported by run_case (its
       # reference run raises the same way); here we only need the effect count.
@@ -511,6 +511,7 @@ def single_crash_cases(tier):
         for ef in (0, 2):
           for final in (0, 1) if tier == 'quick' else (0, 1, 2):
             case = base_case(nr, cf, keep, ef, final, train=(nr + cf) % 2 == 0)
+            case['dirname'] = DIRNAMES[(nr * 7 + cf * 3 + keep + ef + final) % len(DIRNAMES)]
             log = count_effects(case)
             for i, kind in enumerate(log):
               if kind.startswith('write:') or kind.startswith('close_w:'):
@@ -523,12 +524,17 @@ def single_crash_cases(tier):
                 yield c
 
 
+DIRNAMES = ['run', 'run', 'run', 'exp.1', 'a+b', 'run(2)', 'run[1]', 'x^y$', 'star*q?', 'sp ace', 'checkpoint_00000001']
+
+
 def labels(case):
   cfg = case['config']
   ls = ['rounds:%d' % cfg['num_rounds'], 'ckpt_freq:%d' % cfg['checkpoint_frequency'],
         'keep:%d' % cfg['keep'], 'ncrashes:%d' % len(case['crashes'])]
   if case['evals']['final']:
     ls.append('final_eval')
+  if case.get('dirname', 'run') != 'run':
+    ls.append('dirname_special')
   return ls
 
 
@@ -552,6 +558,7 @@ def schedule_strategy(draw, tier):
                    periodic=draw(st.booleans()), train=draw(st.booleans()),
                    n_clients=n_clients, cohort=draw(st.integers(1, n_clients)),
                    seed=draw(st.integers(0, 50)))
+  case['dirname'] = draw(st.sampled_from(DIRNAMES))
   # crash indices are drawn inside the effect stream of an uninterrupted run of
   # this configuration (a resumed run has fewer effects: later crashes of the
   # schedule are biased toward small indices)
@@ -573,7 +580,7 @@ def run_hard(case):
   """Same oracle, but the crash is a real os._exit in a child process."""
   base = tempfile.mkdtemp(prefix='vf-c09h-', dir='/var/tmp')
   try:
-    root = os.path.join(base, 'run')
+    root = os.path.join(base, case.get('dirname', 'run'))
     ref_state, ref_tsvs, states, _ = reference(case, base)
     env = _env.worker_env()
     for crash in case['crashes']:
